@@ -143,6 +143,8 @@ class C12(Check):
         if quick:
             reps2 = reps2[seed % 4::4]
             reps3 = [r for r in reps3 if len(r[0]) >= 2][seed % 3::3]
+        reps2d, _ = scopes.structural_scope(scopes.L3, scopes.SIG3, 2, ("strong",), seed, 1, minsize=2)
+        reps3 = reps3 + [([p_[0], p_[0], p_[1]], "strong") for p_, _c in reps2d[seed % 2::2]]      # the same conditional twice
         q2 = scopes.semclass_reps(scopes.C2, scopes.SIG2)[3::7]
         q3 = scopes.literal_queries3()[::8]
         self.nb = len(reps2) + len(reps3)
